@@ -263,6 +263,7 @@ def check_C05(tier, seed):
     slice_cms.run_slice(res, rng, tier, {pid}, {"exact"}, core.B(200) if tier == QUICK else 4000, core.B(12) if tier == QUICK else 200, exhaustive_len=2 if tier == QUICK else 3)
     slice_log.log_step(res, rng, tier)
     slice_log.log_history(res, rng, tier, {pid}, core.B(150) if tier == QUICK else 3000, core.B(12) if tier == QUICK else 200)
+    slice_log.rand_refill(res, rng, tier)
     _only(res, pid)
 
     def search():
